@@ -99,7 +99,7 @@ theorem append_empty_inert (h : Heap) (dst src : Buf) (self : Bool) (g : Nat) (h
     dst.append h src self g = .ok h dst := by
   unfold Buf.append
   have ne : ¬ dst.ch ≠ src.ch := by simp [he]
-  simp only [ne, if_false, hd, hs, Nat.add_zero, Nat.not_lt_zero, List.range_zero, xferLoop, Res.bind]
+  simp only [ne, if_false, hd, hs, Nat.add_zero, Nat.not_lt_zero, Buf.firstCells, List.range_zero, List.map_nil, storeList]
   have ha : alignCap dst.ch dst.cap = dst.cap := by
     unfold alignCap; rcases hz with z | z <;> simp [z]
   simp only [ha]
